@@ -68,6 +68,9 @@ func (s *Sink) add(o Obligation) {
 	s.mu.Unlock()
 }
 
+// Add records a ready-made obligation.
+func (s *Sink) Add(o Obligation) { s.add(o) }
+
 // OK records a discharged obligation.
 func (s *Sink) OK(rule, key, pos, msg string) {
 	s.add(Obligation{Rule: rule, Key: key, Status: Discharged, Pos: pos, Msg: msg})
